@@ -66,11 +66,15 @@ pub struct History {
     pub plain: bool,
     /// selects among the well-formed encodings of each symbol (0: the Windows-like ones)
     pub variant: u64,
+    /// when set, every "unknown-data" symbol of the history carries this pduType2
+    pub data_type: Option<u8>,
 }
 
 const DESCRIPTORS: [&[u8]; 5] = [&[0], &[], b"RDP\0", &[0x41], &[0x20; 64]];
 
-fn build_symbol(s: &Session, sym: usize, share_id: u32, current_share: u32, k: usize, variant: u64) -> (B, Wrap, usize) {
+pub const OTHER_DATA_TYPES: [u8; 24] = [0x02, 0x1B, 0x1C, 0x21, 0x22, 0x23, 0x24, 0x25, 0x26, 0x27, 0x29, 0x2B, 0x2C, 0x2D, 0x2E, 0x30, 0x31, 0x32, 0x36, 0x37, 0x00, 0x01, 0x38, 0xFF];
+
+fn build_symbol(s: &Session, sym: usize, share_id: u32, current_share: u32, k: usize, variant: u64, data_type: Option<u8>) -> (B, Wrap, usize) {
     let p = &s.profile;
     let sid = current_share;
     let mut vr = Rng::derive(variant, "C12-variant", sym as u64, k as u64);
@@ -88,7 +92,22 @@ fn build_symbol(s: &Session, sym: usize, share_id: u32, current_share: u32, k: u
         "control-other" => (proto::control(p, sid, if k % 2 == 0 { 3 } else { 1 }, 0, 0), Wrap::Sdi, 0),
         "font-map" => (proto::font_map(p, sid), Wrap::Sdi, 0),
         "set-error-info" => (proto::set_error_info(p, sid, 0x0000000C), Wrap::Sdi, 0),
-        "unknown-data" => (proto::other_data_pdu(p, sid, if k % 2 == 0 { 0x26 } else { 0x36 }, &[0u8; 12]), Wrap::Sdi, 0),
+        "unknown-data" => {
+            // any data PDU type that has no meaning for the activation: with the Windows-like encoding two fixed ones, else
+            // every type of MS-RDPBCGR 2.2.8.1.1.1.2 but synchronize, control, font map and set-error-info
+            let t = match data_type {
+                Some(t) => t,
+                None if variant == 0 => {
+                    if k % 2 == 0 {
+                        0x26
+                    } else {
+                        0x36
+                    }
+                }
+                None => OTHER_DATA_TYPES[vr.below(OTHER_DATA_TYPES.len() as u64) as usize],
+            };
+            (proto::other_data_pdu(p, sid, t, &[0u8; 12]), Wrap::Sdi, 0)
+        }
         "deactivate-all" => (proto::deactivate_all_with(p, sid, desc), Wrap::Sdi, 0),
         "multi-pdu" => {
             let mut b = B::new();
@@ -120,7 +139,7 @@ fn new_events(s: &Session, from: usize) -> (Vec<ClientMsg>, usize) {
 
 pub fn check_history(h: &History, rep: &mut Report) {
     rep.eval();
-    let desc = json!({"class": h.class, "plain": h.plain, "syms": h.syms.iter().map(|s| SYMS[*s]).collect::<Vec<_>>(), "sym_idx": h.syms, "share_ids": h.share_ids, "variant": h.variant});
+    let desc = json!({"class": h.class, "plain": h.plain, "syms": h.syms.iter().map(|s| SYMS[*s]).collect::<Vec<_>>(), "sym_idx": h.syms, "share_ids": h.share_ids, "variant": h.variant, "data_type": h.data_type});
     let opened = mon::guarded(|| if h.plain { session::open_plain(session::full_profile(), true) } else { session::open_real(session::full_profile(), true) });
     let mut s = match opened {
         Ok(Ok(s)) => s,
@@ -141,7 +160,7 @@ pub fn check_history(h: &History, rep: &mut Report) {
     let mut malformed0 = s.server.with(|sv| sv.malformed.len());
     for (k, sym) in h.syms.iter().enumerate() {
         let share = h.share_ids[k % h.share_ids.len()];
-        let (b, wrap, nrects) = build_symbol(&s, *sym, share, cur_share, k, h.variant);
+        let (b, wrap, nrects) = build_symbol(&s, *sym, share, cur_share, k, h.variant, h.data_type);
         let (next, must_finalize, must_bitmaps) = step(st, *sym, nrects);
         let tag = format!("{:?}/{}", st, SYMS[*sym]);
         s.push(SYMS[*sym], &b, wrap);
@@ -249,7 +268,20 @@ fn history_from_index(mut idx: u64, len: usize, seed: u64) -> History {
         idx /= NSYM;
     }
     let mut r = Rng::derive(seed, "C12-sid", len as u64, idx);
-    History { syms, share_ids: vec![0x000103ea, r.u32(), 0x000103ea], class: "exhaustive", plain: false, variant: if r.chance(1, 2) { 0 } else { r.next() | 1 } }
+    History { syms, share_ids: vec![0x000103ea, r.u32(), 0x000103ea], class: "exhaustive", plain: false, variant: if r.chance(1, 2) { 0 } else { r.next() | 1 }, data_type: None }
+}
+
+/// every data PDU type without a role in the activation, received in each of the six states: the happy path up to
+/// that state, the PDU, then the rest of the happy path, a bitmap and a deactivation
+fn data_type_history(idx: u64) -> History {
+    let happy = [0usize, 1, 2, 3, 5];
+    let state = (idx % 6) as usize;
+    let t = OTHER_DATA_TYPES[(idx / 6) as usize % OTHER_DATA_TYPES.len()];
+    let mut syms: Vec<usize> = happy[..state.min(5)].to_vec();
+    syms.push(7);
+    syms.extend_from_slice(&happy[state.min(5)..]);
+    syms.extend_from_slice(&[9, 7, 9, 8, 7]);
+    History { syms, share_ids: vec![0x000103ea], class: "data-type-in-every-state", plain: false, variant: 0, data_type: Some(t) }
 }
 
 fn random_history(seed: u64, idx: u64) -> History {
@@ -275,7 +307,7 @@ fn random_history(seed: u64, idx: u64) -> History {
     let nid = r.range(1, 3) as usize;
     let share_ids: Vec<u32> = (0..nid).map(|_| if r.chance(1, 2) { 0x000103ea } else { r.u32() }).collect();
     let variant = if r.chance(1, 3) { 0 } else { r.next() | 1 };
-    History { syms, share_ids, class: "random-long", plain: false, variant }
+    History { syms, share_ids, class: "random-long", plain: false, variant, data_type: None }
 }
 
 pub fn run(cfg: &Cfg) -> Report {
@@ -293,6 +325,16 @@ pub fn run(cfg: &Cfg) -> Report {
             total.count(&format!("exhaustive_histories_len_{}", len), n);
             total.merge(rep);
         }
+    }
+    if cfg.wants(2) {
+        let n = 6 * OTHER_DATA_TYPES.len() as u64;
+        let rep = par_run(cfg, n, 4, |idx, rep| {
+            mon::begin_case(12, 101, idx, seed);
+            let h = data_type_history(idx);
+            check_history(&h, rep);
+        });
+        total.count("data_type_histories", n);
+        total.merge(rep);
     }
     if cfg.wants(1) {
         let n = cfg.n(10_000, 1_000_000);
@@ -314,6 +356,8 @@ pub fn replay(_cfg: &Cfg, v: &Value) -> Report {
         let a: Vec<u64> = a.as_array().unwrap().iter().map(|x| x.as_u64().unwrap()).collect();
         if a[1] == 100 {
             random_history(a[3], a[2])
+        } else if a[1] == 101 {
+            data_type_history(a[2])
         } else {
             history_from_index(a[2], a[1] as usize, a[3])
         }
@@ -324,6 +368,7 @@ pub fn replay(_cfg: &Cfg, v: &Value) -> Report {
             class: "replay",
             plain: v["plain"].as_bool().unwrap_or(false),
             variant: v["variant"].as_u64().unwrap_or(0),
+            data_type: v["data_type"].as_u64().map(|t| t as u8),
         }
     };
     check_history(&h, &mut rep);
